@@ -607,4 +607,12 @@ def get_current_registers(commands: List[T_Cmd]) -> Set[str]:
         for op in command.operands:
             if isinstance(op, Register):
                 current_registers.add(str(op))
+            # registers used as array index or slice bounds are in use as well
+            elif isinstance(op, ArrayEntry):
+                if isinstance(op.index, Register):
+                    current_registers.add(str(op.index))
+            elif isinstance(op, ArraySlice):
+                for bound in [op.start, op.stop]:
+                    if isinstance(bound, Register):
+                        current_registers.add(str(bound))
     return current_registers
